@@ -1,6 +1,7 @@
 package harness
 
 import (
+	"strings"
 	"crypto/sha256"
 	"encoding/hex"
 	"encoding/json"
@@ -101,7 +102,83 @@ func startWatchdog() {
 func execute(t *testing.T, sc *sim.Scenario, keep bool) *sim.Outcome {
 	runStarted.Store(time.Now().UnixNano())
 	defer runStarted.Store(0)
+	if sc.Mode == "free" {
+		// its own subtest: the testing package fails (and ends) a test during which the race
+		// detector fired; the worker must carry on with the next run
+		var out *sim.Outcome
+		t.Run("free", func(t *testing.T) { sim.ExecuteFree(t, sc, &out) })
+		if out == nil || out.W == nil {
+			out = &sim.Outcome{Sc: sc, W: sim.NewWorld(sc, false), Deadlock: "free-running run ended abnormally"}
+		}
+		for _, c := range out.W.Calls {
+			if !c.Finished && out.Deadlock == "" {
+				out.Deadlock = "free-running run ended before every call returned"
+			}
+		}
+		out.Races = collectRaces()
+		return out
+	}
 	return sim.Execute(t, sc, keep)
+}
+
+var raceLogOff int64
+
+// collectRaces reads what the race detector appended to its log file since the last call.
+func collectRaces() []sim.RaceReport {
+	base := os.Getenv("VERIF_RACELOG")
+	if base == "" {
+		return nil
+	}
+	path := fmt.Sprintf("%s.%d", base, os.Getpid())
+	b, err := os.ReadFile(path)
+	if err != nil || int64(len(b)) <= raceLogOff {
+		return nil
+	}
+	text := string(b[raceLogOff:])
+	raceLogOff = int64(len(b))
+	return parseRaces(text)
+}
+
+const repoPrefix = "github.com/DataDog/datadog-traceroute/"
+
+func parseRaces(text string) []sim.RaceReport {
+	var out []sim.RaceReport
+	for _, block := range strings.Split(text, "==================") {
+		if !strings.Contains(block, "WARNING: DATA RACE") {
+			continue
+		}
+		var sites []string
+		inAccess := false
+		found := false
+		for _, line := range strings.Split(block, "\n") {
+			l := strings.TrimSpace(line)
+			switch {
+			case strings.Contains(l, " by goroutine ") || strings.Contains(l, " by main goroutine"):
+				if strings.HasPrefix(l, "Read at") || strings.HasPrefix(l, "Write at") || strings.HasPrefix(l, "Previous ") || strings.HasPrefix(l, "Atomic ") {
+					inAccess, found = true, false
+					sites = append(sites, "")
+				}
+			case strings.HasPrefix(l, "Goroutine "):
+				inAccess = false
+			case inAccess && !found && strings.HasPrefix(l, repoPrefix) && !strings.Contains(l, "verif"):
+				fn := strings.TrimPrefix(l, repoPrefix)
+				if k := strings.LastIndex(fn, "("); k > 0 && strings.HasSuffix(fn, ")") {
+					fn = fn[:k]
+				}
+				sites[len(sites)-1] = fn
+				found = true
+			}
+		}
+		r := sim.RaceReport{Text: block}
+		if len(sites) > 0 {
+			r.SiteA = sites[0]
+		}
+		if len(sites) > 1 {
+			r.SiteB = sites[1]
+		}
+		out = append(out, r)
+	}
+	return out
 }
 
 // ReplayFile is the on-disk form of a violation.
